@@ -68,6 +68,7 @@ func __sameref(a, b any) bool { return true }
 func __samebytes(a, b []byte) bool { return true }
 func __argT[T any](i int) T { var z T; return z }
 func __lastretT[T any](name string, i int) T { var z T; return z }
+func __cap[T any](label string) T { var z T; return z }
 func __recv() any { return nil }
 `
 
